@@ -823,3 +823,90 @@ def foreign_history_writes(ctx: Ctx, rule: str, why: str, own_step_edits: bool =
     if not obs:
         obs.append(ctx.ob(rule, None, None, subject="pyhms", loc="-", detail=f"every one of the {n} writes to a `_history` is made by the deme itself through `self`", construct="foreign-history-write"))
     return obs
+
+
+def default_truth(f: FuncInfo, test: ast.AST):
+    """True / False / None: the outcome of `test` when every optional parameter of f it mentions has its DEFAULT value (the
+    properties speak about the documented calls; what a new opt-in parameter does when it is given is that feature's own
+    business). Only parameters with a constant default that the body never rebinds are evaluated."""
+    a = f.node.args
+    pos = a.posonlyargs + a.args
+    dmap = dict(zip([x.arg for x in pos][len(pos) - len(a.defaults):], a.defaults)) if a.defaults else {}
+    dmap.update({k.arg: d for k, d in zip(a.kwonlyargs, a.kw_defaults) if d is not None})
+    rebound = {t.id for n in ast.walk(f.node) for t in ast.walk(n) if isinstance(t, ast.Name) and isinstance(t.ctx, ast.Store)}
+    dmap = {k: v for k, v in dmap.items() if isinstance(v, ast.Constant) and k not in rebound}
+    if not dmap:
+        return None
+    # a local that starts as a copy of a None-default parameter and is otherwise only changed by augmented assignments
+    # (`steps_left = max_steps; ...; steps_left -= 1`): arithmetic on None raises, so on every completed path it is still None
+    from ..core import local_defs as _ld
+
+    for nm, ds in _ld(f).items():
+        plain = [d for d in ds if not isinstance(d, ast.AugAssign)]
+        if nm not in dmap and plain and all((isinstance(d, ast.Name) and d.id in dmap and dmap[d.id].value is None) or (isinstance(d, ast.Constant) and d.value is None) for d in plain):
+            dmap[nm] = ast.Constant(value=None)
+
+    def val(e):
+        """('c', python value) | None"""
+        if isinstance(e, ast.Constant):
+            return ("c", e.value)
+        if isinstance(e, ast.Name) and e.id in dmap:
+            return ("c", dmap[e.id].value)
+        return None
+
+    def tv(e):
+        if isinstance(e, ast.UnaryOp) and isinstance(e.op, ast.Not):
+            r = tv(e.operand)
+            return None if r is None else (not r)
+        if isinstance(e, ast.BoolOp):
+            rs = [tv(v) for v in e.values]
+            if isinstance(e.op, ast.And):
+                if any(r is False for r in rs):
+                    # a False conjunct decides only if everything evaluated before it is decided too (short circuit)
+                    for r in rs:
+                        if r is False:
+                            return False
+                        if r is None:
+                            return None
+                return True if all(r is True for r in rs) else None
+            for r in rs:
+                if r is True:
+                    return True
+                if r is None:
+                    return None
+            return False
+        if isinstance(e, ast.Compare) and len(e.ops) == 1:
+            l, r = val(e.left), val(e.comparators[0])
+            if l is None or r is None:
+                return None
+            if not (any(isinstance(x, ast.Name) and x.id in dmap for x in (e.left, e.comparators[0]))):
+                return None
+            op = e.ops[0]
+            try:
+                if isinstance(op, ast.Is):
+                    return l[1] is r[1]
+                if isinstance(op, ast.IsNot):
+                    return l[1] is not r[1]
+                if isinstance(op, ast.Eq):
+                    return l[1] == r[1]
+                if isinstance(op, ast.NotEq):
+                    return l[1] != r[1]
+                if l[1] is None or r[1] is None:
+                    return None
+                if isinstance(op, ast.Lt):
+                    return l[1] < r[1]
+                if isinstance(op, ast.LtE):
+                    return l[1] <= r[1]
+                if isinstance(op, ast.Gt):
+                    return l[1] > r[1]
+                if isinstance(op, ast.GtE):
+                    return l[1] >= r[1]
+            except TypeError:
+                return None
+            return None
+        v = val(e)
+        if v is not None and isinstance(e, ast.Name):
+            return bool(v[1])
+        return None
+
+    return tv(test)
